@@ -206,6 +206,7 @@ def make_builtins(ip):
   reg("globals", lambda ip: _globals(ip))
   reg("vars", lambda ip, o: o.attrs)
   reg("divmod", lambda ip, a, c: (ip.binop(ast.FloorDiv(), a, c), ip.binop(ast.Mod(), a, c)))
+  reg("super", lambda ip, c, o: I._Super(o, c))
   reg("eval", _no_eval)
   reg("exec", _no_eval)
   reg("compile", _no_eval)
@@ -488,7 +489,7 @@ def value_getattr(ip, obj, name):
     return I._PyMethod(obj, name)
   if isinstance(obj, SNum):
     if name == "shape" and obj.pytype == "tensor":
-      return obj.tag.get("shape", ()) if isinstance(obj.tag, dict) else ()
+      return shape_of(obj)
     if name in ("numpy", "eval"):
       if obj.pytype == "tensor" or (isinstance(obj.tag, dict) and obj.tag.get("variable")):
         return Builtin("numpy", lambda ip_: SNum(obj.e, "float", obj.grad))
@@ -1145,14 +1146,66 @@ def _clip(ip, x, lo, hi):
 
 
 @model("K.clip", "tf.clip_by_value")
-def _k_clip(ip, x, lo, hi):
+def _k_clip(ip, x, min_value=None, max_value=None, clip_value_min=None, clip_value_max=None):
+  lo = min_value if min_value is not None else clip_value_min
+  hi = max_value if max_value is not None else clip_value_max
+  if lo is None and hi is None:
+    return T(ip, x) if not isinstance(x, Term) else x
+  if lo is None:
+    return _k_minimum(ip, T(ip, x) if not isinstance(x, Term) else x, T(ip, hi))
+  if hi is None:
+    return _k_maximum(ip, T(ip, x) if not isinstance(x, Term) else x, T(ip, lo))
   return _clip(ip, x, lo, hi)
 
 
-@model("K.maximum", "tf.maximum")
+_ANY_FUNS = {}
+
+
+@model("tf.math.reduce_any", "tf.reduce_any", "K.any")
+def _reduce_any(ip, b, axis=None, **k):
+  if isinstance(b, bool):
+    return b
+  if isinstance(b, Term):
+    return Term("reduce_any", (b,))
+  be = ip.as_bool(b)
+  f = _ANY_FUNS.get("any")
+  if f is None:
+    f = _ANY_FUNS["any"] = z3.Function("reduce_any", z3.BoolSort(), z3.BoolSort())
+  g = f(be)
+  ip.assume(z3.Implies(be, g))       # the element under consideration belongs to the reduced set
+  return SBool(g, "bool")
+
+
+@model("tf.not_equal", "tf.math.not_equal")
+def _tf_not_equal(ip, a, b):
+  r = ip.equals(T(ip, a), T(ip, b))
+  return ip.logical_not(r)
+
+
+@model("tf.equal", "tf.math.equal")
+def _tf_equal(ip, a, b):
+  return ip.equals(T(ip, a), T(ip, b))
+
+
+@model("tf.while_loop")
+def _tf_while_loop(ip, cond, body, loop_vars, maximum_iterations=None, **k):
+  """tf.while_loop with a literal maximum_iterations: unrolled exactly (the trip count is a path split)."""
+  if maximum_iterations is None or is_sym(maximum_iterations):
+    raise Unsupported("tf.while_loop without a concrete maximum_iterations (needs an invariant)")
+  state = tuple(loop_vars)
+  for _ in range(int(maximum_iterations)):
+    if not ip.truth(ip.call(cond, list(state), {})):
+      break
+    state = tuple(ip.iterate(ip.call(body, list(state), {})))
+  return state
+
+
+@model("K.maximum", "tf.maximum", "tf.math.maximum_")
 def _k_maximum(ip, a, b):
   if isinstance(a, Term) or isinstance(b, Term):
     return Term("maximum", (a, b))
+  if conc(a) and conc(b):
+    return max(a, b)
   a, b = T(ip, a), T(ip, b)
   ea, eb = a.e, b.e
   if ea.sort() != eb.sort():
@@ -1169,6 +1222,8 @@ def _k_maximum(ip, a, b):
 def _k_minimum(ip, a, b):
   if isinstance(a, Term) or isinstance(b, Term):
     return Term("minimum", (a, b))
+  if conc(a) and conc(b):
+    return min(a, b)
   a, b = T(ip, a), T(ip, b)
   ea, eb = a.e, b.e
   if ea.sort() != eb.sort():
@@ -1300,14 +1355,54 @@ def _k_sigmoid(ip, x):
   return SNum(t, "tensor", g)
 
 
+class ShapeList(list):
+  """TensorShape stand-in: a list with as_list()."""
+
+  def as_list(self):
+    return list(self)
+
+
+def shape_of(v):
+  if isinstance(v, SNum) and isinstance(v.tag, dict) and "shape" in v.tag:
+    return ShapeList(v.tag["shape"])
+  return ShapeList([])
+
+
+def with_shape(v, shape, extra=None):
+  tag = dict(v.tag) if isinstance(v.tag, dict) else {}
+  tag["shape"] = tuple(shape)
+  if extra:
+    tag.update(extra)
+  return SNum(v.e, "tensor", v.grad, tag)
+
+
+_AGG_FUNS = {}
+
+
 def _aggregate(ip, kind, v, axis=None, keepdims=False, **k):
   """Group reduction over the scaling group G of the element under consideration.
-  Modelled as a fresh real tied to the element expression it aggregates (recorded in ip.aggs so that
-  contracts can name it); max additionally satisfies max_G(v) >= v for the member element."""
+  Modelled as an uninterpreted function, one per (kind, tensor shape, reduction axes), applied to the
+  element expression: the same expression reduced over the same group gives the same aggregate
+  (functional consistency across runs); different grouping -> unrelated symbols.
+  max additionally satisfies max_G(v) >= v for the member element; std >= 0."""
   if isinstance(v, Term):
     return Term(kind, (v,), {"axis": axis, "keepdims": keepdims})
   v = T(ip, v)
-  g = ip.fresh(kind.replace(".", "_"), "real")
+  shape = tuple(shape_of(v))
+  if isinstance(axis, (list, tuple)):
+    ax = tuple(int(a) if not is_sym(a) else repr(a) for a in axis)
+  elif axis is None:
+    ax = None
+  elif is_sym(axis) or isinstance(axis, Term):
+    raise Unsupported("reduction over a symbolic axis")
+  else:
+    ax = (int(axis),)
+  key = (kind, shape, ax)
+  f = _AGG_FUNS.get(key)
+  if f is None:
+    f = z3.Function("%s#%d" % (kind.replace(".", "_"), len(_AGG_FUNS)), z3.RealSort(), z3.RealSort())
+    _AGG_FUNS[key] = f
+  g = f(R(v.e))
   if kind.endswith("max"):
     ip.assume(g >= R(v.e))
   if kind.endswith("std"):
@@ -1315,8 +1410,33 @@ def _aggregate(ip, kind, v, axis=None, keepdims=False, **k):
   aggs = getattr(ip, "aggs", None)
   if aggs is None:
     aggs = ip.aggs = []
-  aggs.append((kind, R(v.e), g))
-  return SNum(g, "tensor", z3.RealVal(0) if ip_tracks_grad(ip) else None, {"group": True, "shape": getattr(v, "tag", None) and v.tag.get("shape", ())})
+  aggs.append((kind, R(v.e), g, key))
+  if keepdims and ax is not None:
+    new_shape = tuple(1 if i in ax or (i - len(shape)) in ax else d for i, d in enumerate(shape))
+  elif keepdims:
+    new_shape = tuple(1 for _ in shape)
+  else:
+    new_shape = ()
+  return SNum(g, "tensor", z3.RealVal(0) if ip_tracks_grad(ip) else None, {"group": True, "shape": new_shape})
+
+
+@model("tf.reshape", "K.reshape")
+def _tf_reshape(ip, x, shape):
+  if isinstance(x, Term):
+    return Term("reshape", (x, tuple(shape) if isinstance(shape, (list, tuple)) else shape))
+  x = T(ip, x)
+  return with_shape(x, tuple(shape))
+
+
+@model("tf.repeat")
+def _tf_repeat(ip, x, repeats=None, axis=None):
+  if isinstance(x, Term):
+    return Term("repeat", (x,), {"repeats": repeats, "axis": axis})
+  x = T(ip, x)
+  shp = list(shape_of(x))
+  if axis is not None and not is_sym(axis) and 0 <= int(axis) < len(shp) and not is_sym(repeats):
+    shp[int(axis)] = shp[int(axis)] * int(repeats)
+  return with_shape(x, tuple(shp))
 
 
 @model("K.max", "tf.reduce_max")
@@ -1376,16 +1496,20 @@ def _tf_rank(ip, x):
 def _tf_shape(ip, x):
   if isinstance(x, Term):
     return Term("shape", (x,))
-  if isinstance(x, SNum) and isinstance(x.tag, dict) and "shape" in x.tag:
-    return x.tag["shape"]
-  return ()
+  return shape_of(x) if isinstance(x, SNum) else ShapeList([])
 
 
 @model("tf.random.uniform", "K.random_uniform")
 def _tf_random_uniform(ip, shape=None, minval=0, maxval=None, **k):
   if maxval is None:
     maxval = 1
-  u = ip.fresh("u", "real")
+  cnt = getattr(ip, "draw_counter", None)
+  if cnt is None:
+    u = ip.fresh("u", "real")
+  else:
+    # deterministic naming: the i-th draw of a run (lets two runs share their random draws)
+    u = z3.Real("udraw_%d" % cnt)
+    ip.draw_counter = cnt + 1
   lo, hi = R(ip.num(minval)), R(ip.num(maxval))
   ip.assume(z3.And(lo <= u, u < hi))
   draws = getattr(ip, "draws", None)
@@ -1404,6 +1528,30 @@ def _noop_ctx(ip, *a, **k):
 def _tf_assert(ip, *a, **k):
   ip.notes.append("tf.debugging assertion not interpreted")
   return None
+
+
+@model("tf.keras.utils.deserialize_keras_object", "tensorflow.keras.utils.deserialize_keras_object")
+def _deserialize_keras_object(ip, identifier, module_objects=None, custom_objects=None, printable_module_name="object"):
+  """Assumed contract (K2) of keras deserialize_keras_object for a {'class_name', 'config'} dict:
+  look class_name up in custom_objects, then module_objects, and call cls.from_config(config)."""
+  if isinstance(identifier, dict) and "class_name" in identifier and "config" in identifier:
+    name = identifier["class_name"]
+    cls = None
+    for table in (custom_objects, module_objects):
+      if table is None:
+        continue
+      if isinstance(table, dict) and name in table:
+        cls = table[name]
+        break
+      if isinstance(table, I.Env) or hasattr(table, "vars"):
+        pass
+    if cls is None:
+      raise PyRaise("ValueError", ("Unknown %s: %s" % (printable_module_name, name),))
+    fc = ip.getattr(cls, "from_config") if ip.hasattr(cls, "from_config") else None
+    if fc is not None:
+      return ip.call(fc, [identifier["config"]], {})
+    return ip.call(cls, [], dict(identifier["config"]))
+  raise Unsupported("deserialize_keras_object of %r" % (identifier,))
 
 
 @model("re.sub")
